@@ -253,6 +253,21 @@ def damaged(rng, lang, idx):
     joined = sp.join(ws)
     out += [("ws-tab", b"\t".join(ws)), ("ws-double", b"  ".join(ws)), ("ws-lead", b" " + joined), ("ws-trail", joined + b" "),
             ("ws-newline", joined + b"\n"), ("ws-crlf", b"\r\n".join(ws))]
+    # white space that is NOT a separator for the validator (no U+0020 in its NFKD form) inside / at the end of a token:
+    # the count stays acceptable, the token is unknown and is the one to be named
+    for ch in (b"\t", b"\n", b"\x0b", b"\x0c", b"\r", "\u0085".encode(), "\u2028".encode(), "\u2029".encode(), "\u1680".encode()):
+        p = rng.randrange(n)
+        w2 = list(ws)
+        k = rng.choice((0, len(ws[p]), rng.randrange(len(ws[p].decode()) + 1)))
+        sw = ws[p].decode()
+        w2[p] = (sw[:k] + ch.decode() + sw[k:]).encode() if k <= len(sw) else ws[p] + ch
+        out.append(("inner-ws", sp.join(w2)))
+        # ... and in front of a LATER unknown token
+        if p + 1 < n:
+            w3 = list(w2)
+            w3[p] = ws[p] + ch + ws[p]
+            w3[rng.randrange(p + 1, n)] = b"notaword"
+            out.append(("inner-ws-then-unknown", sp.join(w3)))
     # arbitrary bytes
     out.append(("bytes", rng.randbytes(rng.randrange(1, 200))))
     out.append(("bytes", b" ".join(rng.randbytes(rng.randrange(1, 6)) for _ in range(n))))
@@ -377,3 +392,142 @@ def sentence_ending_with(rng, n, last):
         if idx[-1] == last:
             return idx
     return None
+
+
+# ---------------------------------------------------------------- round-4 additions
+_rev = None
+
+
+def reverse_nfkd():
+    """decomposition string -> code points whose full NFKD is that string (from the pinned dump of x/text's table)"""
+    global _rev
+    if _rev is None:
+        _rev = {}
+        for ln in open(os.path.join(ROOT, "ucd", "nfkd_xtext.txt")):
+            f = ln.split()
+            if ln.startswith("#") or len(f) < 3:
+                continue
+            cp = int(f[0], 16)
+            dec = "".join(chr(int(x, 16)) for x in f[2:])
+            _rev.setdefault(dec, []).append(cp)
+    return _rev
+
+
+def compat_respellings(rng, word, limit=6):
+    """spellings of `word` (bytes, in NFKD form) in which ONE substring of 1..4 code points is replaced by a single
+    code point whose NFKD is that substring: compatibility ideographs and radicals, circled / parenthesised / squared
+    letters, roman numerals, ligatures, precomposed letters ...   -> list of (category name, bytes)"""
+    s = word.decode()
+    rev = reverse_nfkd()
+    out = []
+    for i in range(len(s)):
+        for L in (1, 2, 3, 4):
+            sub = s[i:i + L]
+            if len(sub) < L:
+                break
+            for cp in rev.get(sub, ()):
+                out.append((unicodedata.category(chr(cp)) + ("/bmp" if cp < 0x10000 else "/astral"), (s[:i] + chr(cp) + s[i + L:]).encode()))
+    if len(out) > limit:
+        # keep variety: one per category first
+        by = {}
+        for c, v in out:
+            by.setdefault(c, []).append(v)
+        pick = [(c, rng.choice(vs)) for c, vs in sorted(by.items())]
+        rest = [x for x in out if x not in pick]
+        rng.shuffle(rest)
+        out = (pick + rest)[:max(limit, len(pick))]
+    return out
+
+
+INVISIBLE = [0x034F, 0x200B, 0x200C, 0x200D, 0x2060, 0xFEFF, 0x00AD, 0x180E, 0x061C, 0x200E, 0xFE0F, 0xE0001]
+
+
+def invisible_variants(rng, word):
+    """a list word with ONE invisible / default-ignorable code point (none of which NFKD removes) at the front, inside
+    or at the end: such a token is not a list word"""
+    s = word.decode()
+    out = []
+    for cp in INVISIBLE:
+        k = rng.choice((0, len(s), rng.randrange(len(s) + 1)))
+        out.append((s[:k] + chr(cp) + s[k:]).encode())
+    return out
+
+
+def plane_twins(word):
+    """a list word with its first / last character moved to another plane (code point + k * 0x10000): not a list word"""
+    s = word.decode()
+    out = []
+    for pos in (0, len(s) - 1):
+        for k in (1, 2, 3, 16):
+            cp = ord(s[pos]) + k * 0x10000
+            if cp <= 0x10FFFF:
+                out.append((s[:pos] + chr(cp) + s[pos + 1:]).encode())
+    return out
+
+
+BOUNDARY_CPS = ([0x7F, 0x80, 0xFF, 0x100, 0x7FF, 0x800, 0xFFF, 0x1000, 0x33FF, 0x3400, 0x4DB5, 0x4DBF, 0x4DC0, 0x4DFF, 0x4E00, 0x9FA5, 0x9FA6, 0x9FBB,
+                 0x9FCC, 0x9FD5, 0x9FEA, 0x9FEF, 0x9FFC, 0x9FFF, 0xA000, 0xABFF, 0xAC00, 0xD7A3, 0xD7A4, 0xD7FF, 0xE000, 0xF8FF, 0xF900, 0xFAFF, 0xFB00,
+                 0xFFFD, 0xFFFE, 0xFFFF, 0x10000, 0x1FFFF, 0x20000, 0x2A6DF, 0x2A700, 0x2F800, 0x2FA1D, 0x30000, 0xE0000, 0xFFFFF, 0x100000, 0x10FFFF,
+                 0x3040, 0x3041, 0x3096, 0x309F, 0x30A0, 0x30FF, 0x1100, 0x11FF, 0x3130, 0x318F])
+
+
+def zero_checksum_entropies(rng, el, want=(0, None)):
+    """entropies whose CS checksum bits are all 0 / all 1 (want: bit patterns, None = all ones)"""
+    cs = el // 4
+    out = []
+    for w in want:
+        target = (1 << cs) - 1 if w is None else w
+        for _ in range(20000):
+            e = rng.randbytes(el)
+            if hashlib.sha256(e).digest()[0] >> (8 - cs) == target:
+                out.append(e)
+                break
+    return out
+
+
+def stuck_sources(rng, need):
+    """byte strings of length `need` + 2 containing long runs of identical bytes (a healthy source may emit them)"""
+    out = [bytes([v]) * (need + 2) for v in (0x00, 0xFF, 0x55, rng.randrange(1, 255))]
+    for run in (5, 6, 7, 8, 12, need - 1):
+        if run > need:
+            continue
+        off = rng.randrange(0, need - run + 1)
+        d = bytearray(rng.randbytes(need + 2))
+        d[off:off + run] = bytes([rng.randrange(256)]) * run
+        out.append(bytes(d))
+        d = bytearray(rng.randbytes(need + 2))
+        d[need - run:need] = bytes([rng.randrange(256)]) * run       # the run ends exactly at the last needed byte
+        out.append(bytes(d))
+    # counters and alternations (no run at all)
+    out.append(bytes((i * 1) % 256 for i in range(need + 2)))
+    out.append(bytes((0xAA, 0x55)[i % 2] for i in range(need + 2)))
+    return out
+
+
+LONG_DECOMP = [0xFDFA, 0xFDFB, 0x3307, 0x3310, 0x3350, 0x321D, 0x321E, 0x2057, 0x222D, 0x2A0C, 0x1F14A, 0x33FF, 0xFC5E, 0xFE74]
+
+
+def expansion_strings():
+    """strings whose NFKD form is many times longer than the string (little ASCII around)"""
+    out = []
+    for cp in LONG_DECOMP:
+        for k in (1, 2, 5, 6, 7, 8, 15, 16, 17, 31, 45, 50, 64, 100, 300):
+            out.append(chr(cp) * k)
+    out.append("".join(chr(c) for c in LONG_DECOMP) * 7)
+    out.append("a" + chr(0xFDFA) * 40 + "b")
+    return [x.encode() for x in out]
+
+
+def unordered_mark_pairs():
+    """(typed, canonical) strings WITHOUT any decomposable character in which only the order of combining marks differs"""
+    lo, hi = [0x323, 0x316, 0x327, 0x31B, 0x5B0, 0x1DC0 + 0x3F, 0x93C], [0x301, 0x302, 0x308, 0x303, 0x3099, 0x20D0]
+    out = []
+    for base in ("e", "a", "o", "q", "x", ""):
+        for l in lo:
+            for h in hi:
+                cl, ch = unicodedata.combining(chr(l)), unicodedata.combining(chr(h))
+                if not cl or not ch or cl == ch:
+                    continue
+                a, b = (chr(h) + chr(l), chr(l) + chr(h)) if cl < ch else (chr(l) + chr(h), chr(h) + chr(l))
+                out.append(((base + a + "z").encode(), (base + b + "z").encode()))
+    return out
